@@ -24,6 +24,7 @@ def analyse_lt(ck, prog, fn, rule_prefix, oracle, quantities, time_name='time'):
     T = V(time_name)
     params = fn.params
     results = {}
+    all_undecided = []
     for mode in ('numeric', 'clear'):
         args = [Str.lit('clear') if (p == 'accum' and mode == 'clear') else V(p) for p in params]
         it_ = Interp(prog)
@@ -36,7 +37,9 @@ def analyse_lt(ck, prog, fn, rule_prefix, oracle, quantities, time_name='time'):
                 ck.ob(rule_prefix + '-D1-identity', '%s[%s]::no-raise' % (fn.name, mode), False,
                       'a path raises %s' % o.value, fn.loc(), key='%s::raises' % fn.name)
         main_paths = 0
+        witness_paths = [0]
         covered = {}
+        undecided = []
         for o in outs:
             if o.kind != 'return':
                 continue
@@ -70,11 +73,53 @@ def analyse_lt(ck, prog, fn, rule_prefix, oracle, quantities, time_name='time'):
                       key='%s::early-exit' % fn.name)
                 continue
             main_paths += 1
+
+            def by_witness(reason, rule, key, o=o, conds=conds, mode=mode):
+                """The symbolic argument failed for this path (`reason`).  Report a violation only
+                with a concrete input at which the extracted forms disagree with the recurrence;
+                if they agree on the whole sample grid the check cannot conclude."""
+                import math
+                items = list(o.value.items) if isinstance(o.value, Tup) else []
+                if len(items) != 2 or not all(isinstance(x, Sym) for x in items):
+                    if isinstance(o.value, Tup) and len(items) == 2 or not isinstance(o.value, Tup):
+                        undecided.append('%s: %s, and the returned value is not a pair of '
+                                         'numeric normal forms (%r): cannot conclude'
+                                         % (fn.name, reason, o.value))
+                        return
+                    ck.ob(rule, '%s[%s]::returns-pair' % (fn.name, mode), False,
+                          'does not return (position, accumulator): %r' % (o.value,), fn.loc(),
+                          key='%s::return-shape' % fn.name)
+                    return
+                names = [p_ for p_ in fn.params if not (p_ == 'accum' and mode == 'clear')]
+
+                def expected_at(pt):
+                    if mode == 'numeric':
+                        acc0 = Sym.const(pt['accum'])
+                    else:
+                        sg = tuple((q.evaluate(pt) > 0) - (q.evaluate(pt) < 0) for q in quantities)
+                        acc0 = Sym.const(clear_expected(sg))
+                    tot = oracle(acc0).evaluate(pt)
+                    pos = math.floor(tot / motion.TWO31)
+                    return (pos, tot - motion.TWO31 * pos)
+                res = motion.path_witness(items, conds, names, expected_at)
+                if res[0] == 'witness':
+                    _t, pt, k, gv, wv = res
+                    ck.ob(rule, '%s[%s]::witness' % (fn.name, mode), False,
+                          '%s: at %s the returned %s is %s, the firmware recurrence gives %s (%s)'
+                          % (fn.name, ', '.join('%s=%s' % kv for kv in sorted(pt.items())),
+                             ('position', 'accumulator')[k], gv, wv, reason), fn.loc(), key=key)
+                elif res[0] == 'agree':
+                    undecided.append('%s: %s, but the extracted forms agree with the recurrence '
+                                     'on all %d sampled inputs of this path; cannot conclude'
+                                     % (fn.name, reason, res[1]))
+                else:
+                    undecided.append('%s: %s, and the extracted forms cannot be evaluated (%s)'
+                                     % (fn.name, reason, res[1]))
+
             if not (isinstance(o.value, Tup) and len(o.value.items) == 2
                     and all(isinstance(x, Sym) for x in o.value.items)):
-                ck.ob(rule_prefix + '-D1-identity', '%s[%s]::returns-pair' % (fn.name, mode), False,
-                      'does not return (position, accumulator) as numbers: %r' % (o.value,),
-                      fn.loc(), key='%s::return-shape' % fn.name)
+                by_witness('the result is not a pair of numeric normal forms',
+                           rule_prefix + '-D1-identity', '%s::return-shape' % fn.name)
                 continue
             # the snap idiom `if abs(A-B) < c: A = B` and similar leave ABS(E) < c assumptions;
             # separate them from sign conditions
@@ -91,28 +136,25 @@ def analyse_lt(ck, prog, fn, rule_prefix, oracle, quantities, time_name='time'):
                 else:
                     sign_conds.append((e, op))
             if bad_cond is not None:
-                ck.ob(rule_prefix + '-D1-identity', '%s[%s]::snap' % (fn.name, mode), False,
-                      'a tolerance test %r can replace a value by a different one (threshold '
-                      'above the 1/6 granularity of the tested difference)' % (bad_cond,),
-                      fn.loc(), key='%s::snap' % fn.name)
+                by_witness('a tolerance test %r may replace a value by a different one'
+                           % (bad_cond,), rule_prefix + '-D1-identity', '%s::snap' % fn.name)
                 continue
             if mode == 'numeric':
                 if sign_conds:
-                    ck.ob(rule_prefix + '-D1-identity', '%s[numeric]::no-data-branches' % fn.name,
-                          False, 'with a numeric accumulator the result depends on a branch on %r, '
-                          'which the recurrence does not have' % (sign_conds[0][0],), fn.loc(),
-                          key='%s::data-branch' % fn.name)
+                    by_witness('the result depends on a branch on %r, which the recurrence does '
+                               'not have' % (sign_conds[0][0],), rule_prefix + '-D1-identity',
+                               '%s::data-branch' % fn.name)
                     continue
                 cases = [((), V('accum'))]
             else:
                 try:
                     allowed = motion.sign_cases_of_path(sign_conds, quantities)
                 except KeyError as exc:
-                    ck.ob(rule_prefix + '-D3-clear-rule', '%s::clear-tested-quantity' % fn.name,
-                          False, 'the clear rule tests the sign of %r, which is not (a multiple '
-                          'of) one of the per-tick rates it must look at: %s'
-                          % (exc.args[0], ', '.join(repr(q) for q in quantities)), fn.loc(),
-                          key='%s::clear-quantity' % fn.name)
+                    by_witness('the clear rule tests the sign of %r, which is not (a multiple of) '
+                               'one of the per-tick rates %s' % (
+                                   exc.args[0], ', '.join(repr(q) for q in quantities)),
+                               rule_prefix + '-D3-clear-rule', '%s::clear-quantity' % fn.name)
+                    witness_paths[0] += 1
                     continue
                 cases = [(t, Sym.const(clear_expected(t))) for t in sorted(allowed)]
                 for t, _ in cases:
@@ -120,7 +162,9 @@ def analyse_lt(ck, prog, fn, rule_prefix, oracle, quantities, time_name='time'):
             for signs, accum0 in cases:
                 total = oracle(accum0)
                 pos, rem = motion.split_pos_rem(total)
-                pos_r, rem_r = motion.split_pos_rem(mk_func('ROUND', total))
+                # raw ROUND atom (not simplified away although P is integer-valued): the snap path
+                # returns ROUND(X) with X == P only modulo the path equality
+                pos_r, rem_r = motion.split_pos_rem(Sym.func('ROUND', total))
                 gp, gr = o.value.items
                 inst = '%s[%s]%s' % (fn.name, mode, list(signs) if signs else '')
                 ok_p = any(motion.equal_mod(x, y, eq_gens) for x in (gp, motion.strip_int(gp))
@@ -129,20 +173,21 @@ def analyse_lt(ck, prog, fn, rule_prefix, oracle, quantities, time_name='time'):
                            for y in (rem, rem_r))
                 what = ('sign case %s: expected start accumulator %s' % (list(signs), accum0)) \
                     if signs else 'numeric start accumulator'
-                ck.ob(rule_prefix + ('-D3-clear-rule' if signs else '-D1-identity'),
-                      inst + '::position', ok_p,
-                      'position is %r; the recurrence gives FLOOR(P/2^31) with P = %r (%s)'
-                      % (gp, total, what), fn.loc(),
-                      key='%s::%s' % (fn.name, 'clear-table' if signs else 'position'))
-                ck.ob(rule_prefix + ('-D3-clear-rule' if signs else '-D1-identity'),
-                      inst + '::accumulator', ok_r,
-                      'final accumulator is %r; the recurrence gives P - 2^31*FLOOR(P/2^31) with '
-                      'P = %r (%s)' % (gr, total, what), fn.loc(),
-                      key='%s::%s' % (fn.name, 'clear-table' if signs else 'accumulator'))
+                rule = rule_prefix + ('-D3-clear-rule' if signs else '-D1-identity')
+                if ok_p and ok_r:
+                    ck.ob(rule, inst + '::position', True)
+                    ck.ob(rule, inst + '::accumulator', True)
+                else:
+                    by_witness('the returned forms (%r, %r) are not the normal forms FLOOR(P/2^31), '
+                               'P - 2^31*FLOOR(P/2^31) of the recurrence, P = %r (%s)'
+                               % (gp, gr, total, what), rule,
+                               '%s::%s' % (fn.name, 'clear-table' if signs else
+                                           ('position' if not ok_p else 'accumulator')))
+                    break
                 if len(ck.samples) < 6:
                     ck.sample({'function': fn.name, 'mode': mode, 'signs': list(signs),
                                'position': repr(gp), 'accumulator': repr(gr)})
-        if mode == 'clear':
+        if mode == 'clear' and not witness_paths[0]:
             import itertools
             n = len(quantities)
             for t in itertools.product((-1, 0, 1), repeat=n):
@@ -152,11 +197,17 @@ def analyse_lt(ck, prog, fn, rule_prefix, oracle, quantities, time_name='time'):
                           list(t), [repr(q) for q in quantities]), fn.loc(),
                       key='%s::clear-cover' % fn.name)
         ck.floor('%s[%s] main paths' % (fn.name, mode), main_paths, 1)
+        if undecided:
+            all_undecided.extend(undecided)
+    if all_undecided and not ck.violations:
+        raise AnalysisError(all_undecided[0])
+    if all_undecided:
+        ck.extra['undecided_paths'] = all_undecided[:5]
     allouts = results['numeric'] + results['clear']
     n_paths, n_ops = motion.check_precision(ck, rule_prefix + '-D4-precision', fn, allouts)
     ck.floor('%s mpmath operations on analysed paths' % fn.name, n_ops, 5)
     n_div = motion.check_float_division(ck, rule_prefix + '-D4-float-division', fn)
-    ck.floor('%s division sites' % fn.name, n_div, 3)
+    ck.floor('%s division sites' % fn.name, n_div, 1)
     return results
 
 
@@ -203,6 +254,20 @@ class NoInline(Hooks):
         return fn.qualname not in self.quals
 
 
+def retuple(v):
+    """(x[0], x[1], ..., x[n-1]) rebuilt from the elements of one value x, in order -> x."""
+    if isinstance(v, Tup) and v.items:
+        srcs = set()
+        for k, it in enumerate(v.items):
+            if isinstance(it, Opaque) and it.label == 'item' and it.args[1] == Sym.const(k):
+                srcs.add(it.args[0])
+            else:
+                return v
+        if len(srcs) == 1 and len(v.items) == 2:
+            return srcs.pop()
+    return v
+
+
 def check_wrappers(ck, prog):
     """D6: deprecated aliases delegate with the right arguments."""
     target = 'ebb_calc.move_dist_lt'
@@ -212,7 +277,7 @@ def check_wrappers(ck, prog):
     a = [V('p0'), V('p1'), V('p2'), V('p3')]
     outs = Interp(prog, hooks).run(f_lma, a)
     want = Opaque('call:' + target, tuple(a))
-    ok = len(outs) == 1 and outs[0].kind == 'return' and outs[0].value == want
+    ok = len(outs) == 1 and outs[0].kind == 'return' and retuple(outs[0].value) == want
     ck.ob('C01-D6-aliases', 'moveDistLMA::delegates', ok,
           'moveDistLMA(a,b,c,d) must return move_dist_lt(a,b,c,d); got %r' % (
               [o.value for o in outs],), f_lma.loc(), key='moveDistLMA::delegation')
